@@ -125,9 +125,7 @@ func checkpath(file string) string {
 	privfile := file
 	if IsAnyBitsSet(Lprivacypath) {
 		for k, v := range knownPathMap {
-			if strings.HasPrefix(privfile, k) {
-				privfile = strings.ReplaceAll(privfile, k, v)
-			}
+			privfile = replacePathPrefix(privfile, k, v)
 		}
 
 		if IsAnyBitsSet(Lprivacypathregexp) {
@@ -152,6 +150,21 @@ func checkpath(file string) string {
 		}
 	}
 	return privfile
+}
+
+// replacePathPrefix replaces the leading directory dir of file by repl.
+// Only a whole leading directory counts: "/home/u" is a prefix of
+// "/home/u/a.go" but not of "/home/user/a.go", and occurrences further
+// inside the path are left alone.
+func replacePathPrefix(file, dir, repl string) string {
+	if dir == "" {
+		return file
+	}
+	d := strings.TrimRight(dir, "/")
+	if file == dir || strings.HasPrefix(file, d+"/") {
+		return repl + file[len(d):]
+	}
+	return file
 }
 
 func checkedfuncname(name string) string {
